@@ -62,6 +62,14 @@ type c05CrashSpec struct {
 	// Rollback: together with the node the application restarts and has lost its last
 	// Rollback commits (an application that persists asynchronously)
 	Rollback int64 `json:"rollback"`
+	// Operator actions at the restart (every (store, state, app) triple, not only those a crash
+	// of this node can leave behind): the application is AppForward empty blocks AHEAD (it went
+	// on alone / the node's data is older); the block store / state store are put back from a
+	// copy taken when a height RestoreBS / RestoreSS blocks lower was the last committed one
+	// (with the WAL and the key's last-sign state of the older of the copies).
+	AppForward int64 `json:"app_forward"`
+	RestoreBS  int64 `json:"restore_bs"`
+	RestoreSS  int64 `json:"restore_ss"`
 }
 
 type c05RunSpec struct {
@@ -74,7 +82,10 @@ type c05Input struct {
 	Plan    map[string][]string `json:"plan"`     // height -> txs submitted before that height ("VAL" = validator-set change tx)
 	ParamAt int64               `json:"param_at"` // EndBlock of this height returns a consensus-param update (0 = never)
 	Retain  map[string]int64    `json:"retain"`   // Commit of height -> RetainHeight
-	Runs    []c05RunSpec        `json:"runs"`
+	// HashMode "txs": the application hash only changes with transactions (like kvstore's; empty
+	// blocks leave it alone); anything else: it also covers the number of commits
+	HashMode string       `json:"hash_mode"`
+	Runs     []c05RunSpec `json:"runs"`
 }
 
 // ------------------------------------------------------------------------------------ trace
@@ -97,19 +108,19 @@ type c05Post struct {
 }
 
 type c05Event struct {
-	Ev    string   `json:"ev"`    // Reset | Op | Crash | Restart | HandshakeDone | HandshakeError | Catchup | Panic | Stuck | Done
-	Run   string   `json:"run"`   // run id
-	Op    string   `json:"op"`    // db | abci | wal | mp | evp | ""
-	K     string   `json:"k"`     // op class, e.g. bs:part, ss:state, BeginBlock, endheight, msg:precommit, Lock
-	H     int64    `json:"h"`     // height the op refers to
-	I     int64    `json:"i"`     // index (tx index, part index)
-	Tx    string   `json:"tx"`    // transaction name for DeliverTx
-	Blk   []string `json:"blk"`   // BeginBlock: the transactions of the block with the requested hash
-	Inc   int      `json:"inc"`   // incarnation (0 = first boot)
-	Idx   int      `json:"idx"`   // op index within the incarnation (0 for non-op events)
-	Phase string   `json:"phase"` // boot | hs | cs
-	Msg   string   `json:"msg"`   // error / panic class, "" otherwise
-	Tgt   int64    `json:"tgt"`   // Done/Stuck: height that had to be committed
+	Ev    string   `json:"ev"`            // Reset | Op | Crash | Restart | HandshakeDone | HandshakeError | Catchup | Panic | Stuck | Done
+	Run   string   `json:"run"`           // run id
+	Op    string   `json:"op"`            // db | abci | wal | mp | evp | ""
+	K     string   `json:"k"`             // op class, e.g. bs:part, ss:state, BeginBlock, endheight, msg:precommit, Lock
+	H     int64    `json:"h"`             // height the op refers to
+	I     int64    `json:"i"`             // index (tx index, part index)
+	Tx    string   `json:"tx"`            // transaction name for DeliverTx
+	Blk   []string `json:"blk"`           // BeginBlock: the transactions of the block with the requested hash
+	Inc   int      `json:"inc"`           // incarnation (0 = first boot)
+	Idx   int      `json:"idx"`           // op index within the incarnation (0 for non-op events)
+	Phase string   `json:"phase"`         // boot | hs | cs
+	Msg   string   `json:"msg"`           // error / panic class, "" otherwise
+	Tgt   int64    `json:"tgt"`           // Done/Stuck: height that had to be committed
 	Cfg   *c05Cfg  `json:"cfg,omitempty"` // Reset: the chain plan in the spec's terms
 	Post  c05Post  `json:"post"`
 }
@@ -121,6 +132,7 @@ type c05Cfg struct {
 	VU     []int64 `json:"vu"`     // heights whose EndBlock returns validator updates
 	PU     []int64 `json:"pu"`     // heights whose EndBlock returns consensus-param updates
 	Retain []int64 `json:"retain"` // RetainHeight returned by Commit(h)
+	HashC  bool    `json:"hashc"`  // the application hash covers the number of commits
 }
 
 func c05Label(op, k string, h, i int64) string {
@@ -138,9 +150,10 @@ type c05App struct {
 	mtx sync.Mutex
 
 	// committed
-	height int64
-	txs    int64
-	hist   map[int64]int64 // height -> txs committed up to and including it
+	height      int64
+	txs         int64
+	hist        map[int64]int64 // height -> txs committed up to and including it
+	hashTxsOnly bool
 	// working block
 	openTxs  int64
 	valUpds  []abci.ValidatorUpdate
@@ -168,7 +181,25 @@ func c05DecodeHash(b []byte) c05Hash {
 	return h
 }
 
-func (a *c05App) hash() c05Hash { return c05Hash{C: a.height, T: a.txs} }
+func (a *c05App) hash() c05Hash {
+	if a.hashTxsOnly {
+		return c05Hash{C: 0, T: a.txs}
+	}
+	return c05Hash{C: a.height, T: a.txs}
+}
+
+// forward: the application has committed n more (empty) blocks than the node knows of.
+func (a *c05App) forward(n int64) int64 {
+	a.mtx.Lock()
+	defer a.mtx.Unlock()
+	for ; n > 0; n-- {
+		a.height++
+		a.hist[a.height] = a.txs
+	}
+	a.openTxs = 0
+	a.valUpds = nil
+	return a.height
+}
 
 func (a *c05App) Info(abci.RequestInfo) abci.ResponseInfo {
 	a.mtx.Lock()
@@ -270,6 +301,98 @@ type c05World struct {
 	blocks    map[string][]string // block hash -> tx names (proposal blocks seen by the driver)
 	events    []c05Event
 	heights   int64
+	snapOn    bool
+	snaps     map[int64]*c05Snap
+}
+
+// c05Snap is a copy of the node's data directory taken when height h was the last committed one.
+type c05Snap struct {
+	block, state *dbm.MemDB
+	walDir       string
+	pvState      []byte
+	walEnd       int64
+}
+
+func c05CopyDB(src *dbm.MemDB) *dbm.MemDB {
+	dst := dbm.NewMemDB()
+	it, err := src.Iterator(nil, nil)
+	if err != nil {
+		panic(err)
+	}
+	defer it.Close()
+	for ; it.Valid(); it.Next() {
+		k, v := append([]byte{}, it.Key()...), append([]byte{}, it.Value()...)
+		if err := dst.Set(k, v); err != nil {
+			panic(err)
+		}
+	}
+	return dst
+}
+
+func c05CopyDir(src, dst string) {
+	if err := os.MkdirAll(dst, 0o700); err != nil {
+		panic(err)
+	}
+	ents, _ := os.ReadDir(src)
+	for _, e := range ents {
+		bz, err := os.ReadFile(filepath.Join(src, e.Name()))
+		if err != nil {
+			panic(err)
+		}
+		if err := os.WriteFile(filepath.Join(dst, e.Name()), bz, 0o600); err != nil {
+			panic(err)
+		}
+	}
+}
+
+// snapshot copies the data directory as it is now (last committed height h).
+func (w *c05World) snapshot(h int64) {
+	if !w.snapOn || h < 1 || w.snaps[h] != nil {
+		return
+	}
+	dir := filepath.Join(w.config.RootDir, "data", fmt.Sprintf("snap%d", h))
+	c05CopyDir(filepath.Dir(w.walFile), dir)
+	pv, _ := os.ReadFile(w.config.PrivValidatorStateFile())
+	w.snaps[h] = &c05Snap{block: c05CopyDB(w.blockDisk), state: c05CopyDB(w.stateDisk), walDir: dir, pvState: pv, walEnd: w.walEnd}
+}
+
+// operator applies the operator actions of a crash spec before the restart.
+func (w *c05World) operator(c c05CrashSpec, inc int) {
+	p := w.post()
+	kb, ks := p.BsH-c.RestoreBS, p.SsH-c.RestoreSS
+	if (c.RestoreBS > 0 && w.snaps[kb] == nil) || (c.RestoreSS > 0 && w.snaps[ks] == nil) {
+		w.log(c05Event{Ev: "OperatorSkipped", Inc: inc, Msg: "no copy of the data directory at that height"})
+		return
+	}
+	if c.RestoreBS > 0 {
+		w.blockDisk = c05CopyDB(w.snaps[kb].block)
+		w.log(c05Event{Ev: "Restore", K: "bs", Inc: inc, H: kb})
+	}
+	if c.RestoreSS > 0 {
+		w.stateDisk = c05CopyDB(w.snaps[ks].state)
+		w.log(c05Event{Ev: "Restore", K: "ss", Inc: inc, H: ks})
+	}
+	if c.RestoreBS > 0 || c.RestoreSS > 0 {
+		k := kb
+		if c.RestoreBS == 0 || (c.RestoreSS > 0 && ks < kb) {
+			k = ks
+		}
+		sn := w.snaps[k]
+		w.walSeq++
+		dst := filepath.Join(w.config.RootDir, "data", fmt.Sprintf("wal%d", w.walSeq))
+		c05CopyDir(sn.walDir, dst)
+		w.walFile = filepath.Join(dst, "wal")
+		w.walEnd = sn.walEnd
+		if err := os.WriteFile(w.config.PrivValidatorStateFile(), sn.pvState, 0o600); err != nil {
+			panic(err)
+		}
+		w.log(c05Event{Ev: "Restore", K: "wp", Inc: inc, H: k})
+	}
+	if c.Rollback > 0 {
+		w.log(c05Event{Ev: "Rollback", Inc: inc, H: w.app.rollback(c.Rollback), I: c.Rollback})
+	} else if c.AppForward > 0 {
+		w.log(c05Event{Ev: "Rollback", Inc: inc, H: w.app.forward(c.AppForward), I: -c.AppForward})
+	}
 }
 
 // c05Inc is one incarnation (process lifetime) of the node.
@@ -447,18 +570,18 @@ func (d *c05DB) classify(key, value []byte) (string, int64, int64) {
 // c05OneKeyDB lets store.LoadBlockStoreState decode a value that is not in a DB yet.
 type c05OneKeyDB struct{ v []byte }
 
-func (o c05OneKeyDB) Get([]byte) ([]byte, error)                       { return o.v, nil }
-func (o c05OneKeyDB) Has([]byte) (bool, error)                         { return true, nil }
-func (o c05OneKeyDB) Set([]byte, []byte) error                         { return nil }
-func (o c05OneKeyDB) SetSync([]byte, []byte) error                     { return nil }
-func (o c05OneKeyDB) Delete([]byte) error                              { return nil }
-func (o c05OneKeyDB) DeleteSync([]byte) error                          { return nil }
-func (o c05OneKeyDB) Iterator(_, _ []byte) (dbm.Iterator, error)       { return nil, nil }
+func (o c05OneKeyDB) Get([]byte) ([]byte, error)                        { return o.v, nil }
+func (o c05OneKeyDB) Has([]byte) (bool, error)                          { return true, nil }
+func (o c05OneKeyDB) Set([]byte, []byte) error                          { return nil }
+func (o c05OneKeyDB) SetSync([]byte, []byte) error                      { return nil }
+func (o c05OneKeyDB) Delete([]byte) error                               { return nil }
+func (o c05OneKeyDB) DeleteSync([]byte) error                           { return nil }
+func (o c05OneKeyDB) Iterator(_, _ []byte) (dbm.Iterator, error)        { return nil, nil }
 func (o c05OneKeyDB) ReverseIterator(_, _ []byte) (dbm.Iterator, error) { return nil, nil }
-func (o c05OneKeyDB) Close() error                                     { return nil }
-func (o c05OneKeyDB) NewBatch() dbm.Batch                              { return nil }
-func (o c05OneKeyDB) Print() error                                     { return nil }
-func (o c05OneKeyDB) Stats() map[string]string                         { return nil }
+func (o c05OneKeyDB) Close() error                                      { return nil }
+func (o c05OneKeyDB) NewBatch() dbm.Batch                               { return nil }
+func (o c05OneKeyDB) Print() error                                      { return nil }
+func (o c05OneKeyDB) Stats() map[string]string                          { return nil }
 
 func (d *c05DB) write(key, value []byte, del bool, f func() error) error {
 	cls, h, i := d.classify(key, value)
@@ -722,10 +845,10 @@ type c05Ticker struct {
 	ch  chan timeoutInfo
 }
 
-func (t *c05Ticker) Start() error              { return nil }
-func (t *c05Ticker) Stop() error               { return nil }
-func (t *c05Ticker) Chan() <-chan timeoutInfo   { return t.ch }
-func (t *c05Ticker) SetLogger(log.Logger)      {}
+func (t *c05Ticker) Start() error             { return nil }
+func (t *c05Ticker) Stop() error              { return nil }
+func (t *c05Ticker) Chan() <-chan timeoutInfo { return t.ch }
+func (t *c05Ticker) SetLogger(log.Logger)     {}
 func (t *c05Ticker) ScheduleTimeout(ti timeoutInfo) {
 	t.mtx.Lock()
 	defer t.mtx.Unlock()
@@ -804,7 +927,8 @@ func c05NewWorld(inp *c05Input, id string) *c05World {
 		id:        id,
 		blockDisk: dbm.NewMemDB(),
 		stateDisk: dbm.NewMemDB(),
-		app:       &c05App{paramAt: inp.ParamAt, retain: map[int64]int64{}, hist: map[int64]int64{0: 0}},
+		app:       &c05App{paramAt: inp.ParamAt, retain: map[int64]int64{}, hist: map[int64]int64{0: 0}, hashTxsOnly: inp.HashMode == "txs"},
+		snaps:     map[int64]*c05Snap{},
 		config:    config,
 		genDoc:    genDoc,
 		plan:      map[int64][]types.Tx{},
@@ -837,7 +961,7 @@ func c05NewWorld(inp *c05Input, id string) *c05World {
 // specCfg renders the chain plan as the cfg record of TMCommitPipeline.
 func (w *c05World) specCfg(inp *c05Input) *c05Cfg {
 	n := int64(len(inp.Plan))
-	c := &c05Cfg{MaxH: n, Txs: []int64{}, VU: []int64{}, PU: []int64{}, Retain: []int64{}}
+	c := &c05Cfg{MaxH: n, Txs: []int64{}, VU: []int64{}, PU: []int64{}, Retain: []int64{}, HashC: !w.app.hashTxsOnly}
 	for h := int64(1); h <= n; h++ {
 		c.Txs = append(c.Txs, int64(len(w.plan[h])))
 		c.Retain = append(c.Retain, w.app.retain[h])
@@ -1015,6 +1139,7 @@ func (in *c05Inc) submitPlanned(n *c05Node, h int64) {
 func (in *c05Inc) drive(n *c05Node, target int64) string {
 	cs := n.cs
 	for steps := 0; steps < 400; steps++ {
+		in.w.snapshot(cs.Height - 1)
 		if cs.Height > target {
 			return ""
 		}
@@ -1054,6 +1179,11 @@ func (in *c05Inc) drive(n *c05Node, target int64) string {
 func c05Run(inp *c05Input, spec c05RunSpec) []c05Event {
 	w := c05NewWorld(inp, spec.ID)
 	defer os.RemoveAll(w.config.RootDir)
+	for _, c := range spec.Crashes {
+		if c.RestoreBS > 0 || c.RestoreSS > 0 {
+			w.snapOn = true
+		}
+	}
 	w.log(c05Event{Ev: "Reset", H: w.heights, Msg: fmt.Sprintf("%v", spec.Crashes), Cfg: w.specCfg(inp)})
 	target := w.heights
 	for inc := 0; ; inc++ {
@@ -1097,9 +1227,7 @@ func c05Run(inp *c05Input, spec c05RunSpec) []c05Event {
 		}()
 		if outcome == "crash" {
 			w.crashWAL()
-			if rb := spec.Crashes[inc].Rollback; rb > 0 {
-				w.log(c05Event{Ev: "Rollback", Inc: inc, H: w.app.rollback(rb), I: rb})
-			}
+			w.operator(spec.Crashes[inc], inc)
 		}
 		in.mtx.Lock()
 		in.dead = true
